@@ -45,7 +45,7 @@ def gen_plan(rng, prof):
                 ups = [u for u in range(j) if rng.random() < prof.p_edge]
             used = set()
             for u in ups:
-                opts = [h for h in (EMBED_T if cls[u] == "TaskT" else EMBED_O) if not (h in SINGLE and h in used) and not (h.startswith("holder") and any(x.startswith("holder") for x in used))]
+                opts = [h for h in (EMBED_T if cls[u].startswith("TaskT") else EMBED_O) if not (h in SINGLE and h in used) and not (h.startswith("holder") and any(x.startswith("holder") for x in used))]
                 if not opts:
                     continue
                 how = rng.choice(opts)
@@ -62,7 +62,29 @@ def gen_plan(rng, prof):
                 codes.append(rng.choice([0, 0, 2]))
                 if codes[-1] != 0 and rng.random() < 0.5:
                     codes.append(0)
+        if any(d["how"].startswith("meta") for d in deps):
+            cls[j] += "M"  # the variant of the class that has Meta parameters for other jobs
         jobs.append({"x": j, "cls": cls[j], "deps": deps, "tokens": jt, "codes": codes})
+
+    # a dependency carried by a pre-task attached to the output configuration of ANOTHER upstream task of the same job;
+    # the carrier must be a task_outputs configuration that no other job of the plan receives (attaching the pre-task
+    # changes what every receiver of that output depends on)
+    if getattr(prof, "p_pre_on_out", 0.3):
+        for j in range(n):
+            deps = jobs[j]["deps"]
+            if len(deps) < 2 or rng.random() >= getattr(prof, "p_pre_on_out", 0.3):
+                continue
+            carriers = [d for d in deps if d["how"] in ("art", "arts", "adct") and sum(1 for k in range(n) for e in jobs[k]["deps"] if e["on"] == d["on"]) == 1]
+            if not carriers:
+                continue
+            c = rng.choice(carriers)
+            others = [d for d in deps if d is not c and d["how"] not in ("explicit",)]
+            if not others:
+                continue
+            o = rng.choice(others)
+            o["how"] = "pre_on_out"
+            o["carrier"] = c["on"]
+            o["up_cls"] = cls[o["on"]]
 
     # submission order: a random topological order
     order = []
